@@ -37,7 +37,7 @@ COVERAGE_TARGETS = ['ctor:par', 'ctor:fn', 'ctor:rx', 'ctor:nested', 'ctor:skipf
                     'set:ref:free:ok', 'set:ref:linked:ok', 'set:plain:linked:ok', 'srcSet:synced:ok', 'srcSet:sync:ValueError',
                     'srcSet:quiet:ok', 'ctxEnter:ok', 'ctxExit:ok', 'update:ok', 'setCls:ok', 'ctxEnter:form:kw', 'ctxEnter:form:dict', 'ctxEnter:form:pos',
                     'update:form:kw', 'update:form:dict', 'update:form:pos',
-                    'hook:fired', 'lock:ok', 'falsy-sources', 'hooks', 'shared:ctor-link', 'shared:set:ref:ok', 'shared:set:plain:ok', 'shared:update:ok', 'shared:ctxEnter:ok']
+                    'hook:fired', 'lock:ok', 'trigger:ok', 'event-watchers', 'falsy-sources', 'hooks', 'shared:ctor-link', 'shared:set:ref:ok', 'shared:set:plain:ok', 'shared:update:ok', 'shared:ctxEnter:ok']
 PROP = 'C08'
 
 run_impl = R.run_impl
@@ -152,6 +152,16 @@ def directed_watchers_and_locks():
                    {'op': 'srcSet', 's': 0, 'i': 0, 'v': 5}, {'op': 'set', 't': 0, 'p': 0, 'rhs': R.lit(5)},
                    {'op': 'srcSet', 's': 0, 'i': 0, 'v': 2}, {'op': 'srcSet', 's': 1, 'i': 0, 'v': 1}]
             yield R.mk_case(PROP, src0, [{'params': two, 'ctor': ctor}], ops, falsy_src=falsy)
+    # the Event parameter: a watcher of it makes a rejected assignment to it while it is being dispatched
+    # (fix 9d1d30e); directly triggered and named in an update
+    for ops in ([{'op': 'trigger', 't': 0}],
+                [{'op': 'set', 't': 0, 'p': 0, 'rhs': R.par(0, 0)}, {'op': 'trigger', 't': 0}, {'op': 'srcSet', 's': 0, 'i': 0, 'v': 3}],
+                [{'op': 'update', 't': 0, 'kvs': [[1, R.lit(3)]], 'form': 'kw', 'ev': 'first'}, {'op': 'trigger', 't': 0}]):
+        yield R.mk_case(PROP, src0, [{'params': two, 'ctor': []}], ops, ev_watch=True)
+    # a readonly allow_refs parameter given a reference that raises Skip: accepted and linked (finding)
+    yield R.mk_case(PROP, src0, [{'params': two, 'ctor': []}],
+                    [{'op': 'set', 't': 0, 'p': 4, 'rhs': R.fn([[0, 0]], 0, sk=5)}, {'op': 'srcSet', 's': 0, 'i': 0, 'v': 7},
+                     {'op': 'srcSet', 's': 0, 'i': 0, 'v': 2}])
 
 
 def cases(rng, tier, worker, nworkers):
@@ -161,7 +171,7 @@ def cases(rng, tier, worker, nworkers):
     for i, c in enumerate(itertools.chain(directed_constants(), directed_watchers_and_locks(), directed())):
         if i % nworkers == worker:
             yield c
-    n = 1400 if tier == 'quick' else 60000 // nworkers
+    n = 1200 if tier == 'quick' else 60000 // nworkers
     for _ in range(n):
         yield R.gen_case(rng, PROP, max_ops=10)
 
@@ -170,7 +180,8 @@ def classify(case, impl, fail):
     why = str(fail.get('why', ''))
     if fail.get('kind') != 'counterexample':
         return None
-    for key in ('failed-sync-leaves-valid-links-stale', 'watcher-assignment-during-own-sync-keeps-link'):
+    for key in ('failed-sync-leaves-valid-links-stale', 'watcher-assignment-during-own-sync-keeps-link',
+                'readonly-parameter-linked-through-skipping-reference'):
         if why.startswith(f'finding:{key}:'):
             return key
     return None
